@@ -100,8 +100,54 @@ def _sites(ty, fn):
                             yield st, n, "reduction %s() over a masked selection that may be empty" % m, arg.slice
 
 
-@analysis("emptiness", ["C08.c"])
+rule("C05.s", "argmin / argmax of a boolean mask stands for 'position of the first False / True' only where such an element is known to exist "
+              "(a guard on any / all of the same mask): both return 0 for 'none' and for 'the very first one' - a test `position > 0` drops the "
+              "case that the first element already qualifies (a step longer than the maximum holding time gets no restriction at all)", floor=0,
+     props=["C05", "C12", "C08"])
+
+
+def _mask_extremes(ctx):
+    p = ctx.p
+    n = 0
+    for fn in sorted(p.all_functions(), key=lambda f: f.qualname):
+        ff = None
+        for st in au.walk_stmts(fn.body):
+            for c in au.walk_own(st):
+                if not (isinstance(c, ast.Call) and au.method_name(c) in ("argmin", "argmax")):
+                    continue
+                operand = c.func.value if (isinstance(c.func, ast.Attribute) and not (isinstance(c.func.value, ast.Name) and c.func.value.id in ("np", "numpy"))) else (c.args[0] if c.args else None)
+                if operand is None:
+                    continue
+                ff = ff or ctx.flow(fn)
+                e = ctx.resolve(fn, operand, st)
+                if isinstance(e, ast.UnaryOp) and isinstance(e.op, ast.Invert):
+                    e = ctx.resolve(fn, e.operand, st)
+                is_mask = isinstance(e, ast.Compare) or (isinstance(e, ast.BinOp) and isinstance(e.op, (ast.BitAnd, ast.BitOr)) and any(isinstance(y, ast.Compare) for y in au.walk_local(e)))
+                if not is_mask:
+                    continue
+                n += 1
+                names = au.names_in(operand)
+                guarded = False
+                for a in p.ancestors(c):
+                    if isinstance(a, (ast.If, ast.While)) and any(isinstance(y, ast.Call) and au.method_name(y) in ("any", "all") and (au.names_in(y) & names) for y in au.walk_local(a.test)):
+                        guarded = True
+                # an earlier `if not any(mask): continue / return / raise`
+                for s2 in au.walk_stmts(fn.body):
+                    if s2.lineno < st.lineno and isinstance(s2, ast.If) and s2.body and isinstance(s2.body[-1], (ast.Continue, ast.Break, ast.Return, ast.Raise)) and any(
+                            isinstance(y, ast.Call) and au.method_name(y) in ("any", "all") and (au.names_in(y) & names) for y in au.walk_local(s2.test)):
+                        guarded = True
+                ctx.ob("C05.s", fn, au.short(c, 70), guarded,
+                       "%s is used as the position of the first %s of a mask, but it is 0 both when there is none and when the first element is one: "
+                       "without a guard on any() / all() of the mask the two cases cannot be told apart - a window whose very first step is already longer "
+                       "than max_store_duration is treated like 'no step outside the window' and gets no restriction (level non-zero for 31 days with a "
+                       "limit of 30)" % (au.short(c, 40), "False" if au.method_name(c) == "argmin" else "True"), node=c)
+    if n == 0:
+        ctx.ob("C05.s", "package", "argmin / argmax of masks", True, ok_detail="no argmin / argmax over a boolean mask")
+
+
+@analysis("emptiness", ["C08.c", "C05.s"])
 def run(ctx):
+    _mask_extremes(ctx)
     p = ctx.p
     # guard state at call sites of private helpers
     results = {}     # fn -> (walker, typer)
